@@ -14,6 +14,7 @@ CONSTANTS
   Weak_LightCountsNil = FALSE
   Weak_NoDoubleSignCheck = FALSE
   Weak_SeenByCommitSlotRange = FALSE
+  Weak_TrustsEncodedTotal = FALSE
   Weak_NoBlockIDCheck = FALSE
   Weak_SignBytesIgnoreRound = TRUE
 INIT CaseInit
